@@ -1,7 +1,7 @@
 (* TmplTree.v — C10: the import tree (part 3): findTemplate over the compiled tree is the search
    of the levels in decreasing import precedence; main theorems for the quiet path. *)
 From Coq Require Import List Bool ZArith NArith Lia Sorting.Sorted.
-Require Import XV.TmplDefs XV.TmplModel XV.TmplSelect.
+Require Import XV.TmplDefs XV.TmplModel XV.TmplSelect XV.TmplNq.
 Import ListNotations.
 
 (* induction over the nested inductive [sheet] *)
@@ -24,14 +24,13 @@ Proof.
     assert (H : forall l acc, f l acc = rev (map compile l) ++ acc) end.
   { induction l as [|x r IH]; intro acc; [reflexivity|].
     cbn [map rev]. rewrite IH, <- app_assoc. reflexivity. }
-  rewrite H, app_nil_r. reflexivity.
+  rewrite H. apply app_nil_r.
 Qed.
 
 Lemma postorder_eq : forall items imps,
   postorder (Sheet items imps) = flat_map postorder imps ++ [flatten items].
 Proof.
-  intros. cbn [postorder]. f_equal.
-  induction imps as [|x r IH]; [reflexivity|]. cbn [flat_map]. rewrite <- IH. reflexivity.
+  intros. reflexivity.
 Qed.
 
 Lemma rev_flat_map : forall {A B} (f : A -> list B) l,
@@ -96,30 +95,40 @@ Section Tree.
   Proof.
     intros. cbn [TmplDefs.find_template]. cbv zeta.
     match goal with |- context [?f imps] =>
-      match f with (fix go (l : list csheet) : option template := _) =>
-        assert (H : forall l, f l = first_some (fun c => find_template q c mode n false) l) end end.
+      assert (H : forall l, f l = first_some (fun c => find_template q c mode n false) l) end.
     { induction l as [|x r IH]; [reflexivity|]. cbn [first_some]. rewrite <- IH. reflexivity. }
     rewrite H. reflexivity.
   Qed.
 
-  (* the quiet search of the compiled tree = first hit over the levels, highest precedence first *)
+  Definition level_find_q (q : bool) (ts : list template) (mode : option N) (n : node) : option template :=
+    if q then find_in_list node pmatch (locate (build_tables ts) (key_of n)) mode n
+    else find_in_list_nq node pmatch (locate (build_tables ts) (key_of n)) mode n.
+
+  (* the search of the compiled tree = first hit over the levels, highest precedence first *)
+  Lemma find_template_levels_q : forall q mode n s,
+    find_template q (compile s) mode n false =
+      first_some (fun ts => level_find_q q ts mode n) (rev (postorder s)) /\
+    find_template q (compile s) mode n true =
+      first_some (fun ts => level_find_q q ts mode n) (rev (removelast (postorder s))).
+  Proof.
+    intros q mode n. induction s as [items imps IH] using sheet_ind'.
+    rewrite compile_eq, postorder_eq, !find_template_eq. cbv zeta.
+    rewrite removelast_last, rev_app_distr. cbn [rev app first_some].
+    assert (Himp : first_some (fun c => find_template q c mode n false) (rev (map compile imps)) =
+                   first_some (fun ts => level_find_q q ts mode n) (rev (flat_map postorder imps))).
+    { rewrite <- map_rev, first_some_map, rev_flat_map, first_some_flat_map.
+      apply first_some_ext. apply Forall_rev. rewrite Forall_forall in *.
+      intros x Hx. apply (IH x Hx). }
+    rewrite Himp. split; [|reflexivity].
+    unfold level_find_q at 2. reflexivity.
+  Qed.
+
   Lemma find_template_levels : forall mode n s,
     find_template true (compile s) mode n false =
       first_some (fun ts => level_find ts mode n) (rev (postorder s)) /\
     find_template true (compile s) mode n true =
       first_some (fun ts => level_find ts mode n) (rev (removelast (postorder s))).
-  Proof.
-    intros mode n. induction s as [items imps IH] using sheet_ind'.
-    rewrite compile_eq, postorder_eq, !find_template_eq. cbv zeta.
-    rewrite removelast_last, rev_app_distr. cbn [rev app first_some].
-    assert (Himp : first_some (fun c => find_template true c mode n false) (rev (map compile imps)) =
-                   first_some (fun ts => level_find ts mode n) (rev (flat_map postorder imps))).
-    { rewrite <- map_rev, first_some_map, rev_flat_map, first_some_flat_map.
-      apply first_some_ext. apply Forall_rev. rewrite Forall_forall in *.
-      intros x Hx. apply (IH x Hx). }
-    rewrite Himp. split; [|reflexivity].
-    unfold TmplSelect.level_find at 2. reflexivity.
-  Qed.
+  Proof. intros. exact (find_template_levels_q true mode n s). Qed.
 
   Lemma guards_levels : forall s n,
     uniform_union_priorities s = true -> filed_where_matching node key_of pmatch s n = true ->
@@ -148,6 +157,46 @@ Section Tree.
     intros s mode n Hu Hf. rewrite (proj2 (find_template_levels mode n s)).
     unfold imported_rules. apply levels_spec.
     intros ts Hts. apply (guards_levels s n Hu Hf). apply in_removelast; exact Hts.
+  Qed.
+
+  (* conflict reporting: under the guards the non-quiet path chooses what the quiet path chooses *)
+  Lemma level_nq_guard : forall ts n k,
+    level_uniform ts = true -> level_same_text node pmatch ts n = true ->
+    nq_guard node pmatch n (locate (build_tables ts) k).
+  Proof.
+    intros ts n k Hu Ht. unfold level_uniform, level_same_text in *. rewrite forallb_forall in Hu, Ht.
+    assert (Hfacts : forall e, In e (locate (build_tables ts) k) -> In (e_tmpl e) ts /\ In (e_alt e) (t_alts (e_tmpl e))).
+    { intros e He. apply locate_contents in He. destruct He as [He _]. unfold entries in He.
+      destruct (in_pairs_of_entry ts 0%nat 0%nat 0%N e He) as [r Hr].
+      apply (pairs_facts node pmatch) in Hr. tauto. }
+    split.
+    - intros e He. destruct (Hfacts e He) as [H1 H2]. split; [apply Hu; exact H1 | exact H2].
+    - intros e1 e2 H1 H2 Htx Hpr.
+      destruct (Hfacts e1 H1) as [A1 _]. destruct (Hfacts e2 H2) as [A2 _].
+      specialize (Ht _ A1). rewrite forallb_forall in Ht. specialize (Ht _ A2).
+      rewrite Htx, Hpr, N.eqb_refl in Ht.
+      assert (Hz : opt_z_eqb (t_prio (e_tmpl e2)) (t_prio (e_tmpl e2)) = true).
+      { destruct (t_prio (e_tmpl e2)); cbn; [apply Z.eqb_refl | reflexivity]. }
+      rewrite Hz in Ht. cbn in Ht. apply eqb_prop in Ht. exact Ht.
+  Qed.
+
+  Lemma quiet_eq_nonquiet_lemma : forall s mode n only,
+    uniform_union_priorities s = true -> same_text_same_match node pmatch s n = true ->
+    find_template false (compile s) mode n only = find_template true (compile s) mode n only.
+  Proof.
+    intros s mode n only Hu Ht.
+    assert (Hl : Forall (fun ts => level_find_q false ts mode n = level_find_q true ts mode n) (postorder s)).
+    { rewrite Forall_forall. intros ts Hts. unfold level_find_q.
+      apply nq_eq_quiet_list; [apply locate_sorted|].
+      apply level_nq_guard.
+      - exact (forallb_concat _ _ Hu ts Hts).
+      - unfold same_text_same_match in Ht. rewrite forallb_forall in Ht. apply Ht; exact Hts. }
+    destruct only.
+    - rewrite (proj2 (find_template_levels_q false mode n s)), (proj2 (find_template_levels_q true mode n s)).
+      apply first_some_ext. apply Forall_rev. rewrite Forall_forall in *.
+      intros ts Hts. apply Hl. apply in_removelast; exact Hts.
+    - rewrite (proj1 (find_template_levels_q false mode n s)), (proj1 (find_template_levels_q true mode n s)).
+      apply first_some_ext. apply Forall_rev. exact Hl.
   Qed.
 
   (* the stylesheet an apply-imports starts from: compilation commutes with descending the tree *)
